@@ -1,6 +1,6 @@
 (* C12 - Extension-block edits keep each DM container consistent. *)
 From Coq Require Import List NArith ZArith Bool String Sorting.Permutation Sorting.Sorted.
-From DV Require Import Outcome Bits BitIO Fields Blocks Rpu Ops Tables OpsProofs.
+From DV Require Import Outcome Bits BitIO Fields Blocks Rpu Ops Tables OpsProofs GeneratorPrec.
 From DVgen Require Import Blocks_gen.
 Import ListNotations.
 Open Scope N_scope.
@@ -42,6 +42,31 @@ Theorem C12_upsert_count : forall c nb,
   Nat.max 1 (List.length (filter (same_key nb) (cblocks c))).
 Proof. exact upsert_count. Qed.
 
+(* REPLACEMENT IS AN UPSERT, at the level of the whole DM data and for every level: after replace_metadata_block,
+   the blocks found under the key (level, target) of the new block are the new block followed by what was there
+   beyond the first (nothing, when keys were unique: no second block for a key that already has one), none at all
+   when the container of its level is absent; the blocks under every other key - in either container - are the
+   same; containers neither appear nor disappear *)
+Theorem C12_replace_block_keys : forall d b d', dm_replace_block d b = Ok d' ->
+  forall k, Permutation (key_blocks d' k)
+    (if key_eqb (okey b) k
+     then (if has_cont d (blevel b) then b :: (if keyed_level (blevel b) then tl (key_blocks d k) else []) else [])
+     else key_blocks d k)
+  /\ has_cont d' (fst k) = has_cont d (fst k).
+Proof. exact replace_block_keys. Qed.
+
+(* and unique keys stay unique, over any history of replacements: the last writer of a key is what is found *)
+Theorem C12_replace_history : forall bs d d', uniq_keys d -> dm_replace_blocks d bs = Ok d' ->
+  uniq_keys d' /\
+  forall k, key_blocks d' k = match last_writer k bs with
+                              | Some b => if has_cont d (fst k) then [b] else []
+                              | None => key_blocks d k
+                              end
+            /\ has_cont d' (fst k) = has_cont d (fst k).
+Proof. exact replace_blocks_last_writer. Qed.
+
 Print Assumptions C12_routing_invariant.
+Print Assumptions C12_replace_block_keys.
+Print Assumptions C12_replace_history.
 Print Assumptions C12_upsert_count.
 Print Assumptions C12_sorted.
